@@ -7,9 +7,9 @@ WT = "/tmp/wt/mine"
 M = [
  ("c01_skey_right_align", ["C01","C03"], [("src/srp_internal_client.rs", "SKey::from_le_bytes(S.to_padded_32_byte_array_le())",
    "{ let b = S.to_bytes_le(); let mut k = [0_u8; 32]; let off = 32 - b.len(); k[off..].clone_from_slice(&b); let _ = off; SKey::from_le_bytes(if b.len() == 32 { S.to_padded_32_byte_array_le() } else { k }) }")]),
- ("c01_from_database_reverses_salt_tail", ["C01"], [("src/server.rs", "            salt: Salt::from_le_bytes(salt),\n        }\n    }\n\n    /// See [normal login]",
-   "            salt: Salt::from_le_bytes({ let mut s = salt; if s[31] == 0 { s.reverse(); } s }),\n        }\n    }\n\n    /// See [normal login]")]),
- ("c03_strip_at_most_two", ["C01x","C03"], [("src/key.rs", "        while lead < s.len() && s[lead] == 0 {", "        while lead < 2 && s[lead] == 0 {")]),
+ ("c01_from_database_reverses_salt_tail", ["C01"], [("src/server.rs", "            salt: Salt::from_le_bytes(salt),",
+   "            salt: Salt::from_le_bytes({ let mut s = salt; if s[31] == 0 { s.reverse(); } s }),")]),
+ ("c03_strip_at_most_two", ["C03"], [("src/key.rs", "        while lead < s.len() && s[lead] == 0 {", "        while lead < 2 && s[lead] == 0 {")]),
  ("c03_no_odd_adjust", ["C03"], [("src/key.rs", "        if lead % 2 != 0 {\n            lead += 1;\n        }", "        if lead % 2 != 0 && lead < 3 {\n            lead += 1;\n        }")]),
  ("c03_client_precomputed_xor", ["C03"], [("src/srp_internal_client.rs", "    let xor_hash = calculate_xor_hash(&large_safe_prime, &generator);",
    "    let xor_hash = calculate_xor_hash(&LargeSafePrime::default(), &generator);")]),
@@ -28,8 +28,8 @@ M = [
  ("c12_is_pair_39", ["C12"], [("src/vanilla_header/encrypt.rs", "        self.session_key == other.session_key", "        self.session_key[..39] == other.session_key[..39]")]),
  ("c13_graphic_only", ["C13"], [("src/normalized_string.rs", "                if !c.is_ascii() || c.is_ascii_control() {", "                if !c.is_ascii() || c.is_ascii_control() || c == '\\u{60}' {")]),
  ("c13_upper_first_15", ["C13","C01"], [("src/normalized_string.rs", "                array[i] = c.to_ascii_uppercase() as u8;", "                array[i] = if i < 15 { c.to_ascii_uppercase() as u8 } else { c as u8 };")]),
- ("c14_skip_A_validation_mod", ["C14","C04"], [("src/key.rs", "    if key.iter().all(|value| *value == 0) {", "    if key.iter().all(|value| *value == 0) && key.len() == 33 {")]),
- ("c15_seed_low16", ["C15","C06x"], [("src/tbc_header/mod.rs", "            seed: thread_rng().next_u32(),", "            seed: thread_rng().next_u32() & 0x00FF_FFFF,")]),
+ ("c14_accept_zero_key", ["C04"], [("src/key.rs", "    if key.iter().all(|value| *value == 0) {", "    if key.iter().all(|value| *value == 0) && key.len() == 33 {")]),
+ ("c15_seed_low24", ["C15"], [("src/tbc_header/mod.rs", "            seed: thread_rng().next_u32(),", "            seed: thread_rng().next_u32() & 0x00FF_FFFF,")]),
  ("c15_salt_half", ["C15"], [("src/integrity.rs", "    thread_rng().fill_bytes(&mut key);", "    thread_rng().fill_bytes(&mut key[..15]);")]),
  ("c16_verify_none_true", ["C16"], [("src/pin.rs", "    } else {\n        false\n    }", "    } else {\n        pin == 0\n    }")]),
  ("c16_gate", ["C16"], [("src/pin.rs", "    if bytes.len() < MIN_PIN_LENGTH as usize || bytes.len() > MAX_PIN_LENGTH as usize {", "    if bytes.len() < (MIN_PIN_LENGTH - 1) as usize || bytes.len() > MAX_PIN_LENGTH as usize {")]),
